@@ -10,6 +10,7 @@ from xdis.opcodes.base import (
     def_op,
     finalize_opcodes,
     init_opdata,
+    jrel_op,
     update_pj2,
 )
 
@@ -22,7 +23,7 @@ loc = locals()
 init_opdata(loc, opcode_2x, version_tuple)
 
 # 2.2 Bytecodes not in 2.3
-def_op(loc, "FOR_LOOP", 114)
+jrel_op(loc, "FOR_LOOP", 114, 0, 0, conditional=True)  # Number of bytes to skip
 def_op(loc, "SET_LINENO", 127, 0, 0)
 
 opcode_arg_fmt = update_arg_fmt_base2x.copy()
